@@ -1,7 +1,88 @@
-//! AML-tree based parts of the properties (filled in by the AML module).
+//! AML-object based part of C07: every kind of length-prefixed object the
+//! crate emits, as a real object through the public API, with filler bodies
+//! around every PkgLength width boundary.
+use super::c06::{boundary_sizes, sized_object, SIZED_KINDS};
+use super::c07::{pkglen_decode, shortest_incl};
+use crate::aml::build::emit;
+use crate::aml::term::Term;
 use crate::engine::*;
+use rayon::prelude::*;
+use serde_json::json;
 
-pub fn c07_objects(_ctx: &Ctx) {}
-pub fn c07_replay(_case: &serde_json::Value) -> Vec<Violation> {
-    Vec::new()
+fn opcode_len(kind: usize) -> usize {
+    // Device, PowerResource and Field carry the ExtOpPrefix
+    if matches!(SIZED_KINDS[kind], "Device" | "PowerResource" | "Field") {
+        2
+    } else {
+        1
+    }
+}
+
+pub fn check_object(kind: usize, n: u32) -> Option<Violation> {
+    let t = sized_object(kind, n);
+    let bytes = std::panic::catch_unwind(std::panic::AssertUnwindSafe(|| emit(&t))).ok()?;
+    let ol = opcode_len(kind);
+    let name = SIZED_KINDS[kind];
+    let v = |kind: &str, detail: String, info: String| Some(Violation::new("C07", &format!("pkglength/{}", name), kind, detail, info));
+    match pkglen_decode(&bytes[ol..]) {
+        Err(e) => v("pkglen-format", e.to_string(), format!("body={} bytes={:02x?}", n, &bytes[..bytes.len().min(8)])),
+        Ok((val, used)) => {
+            let to_end = bytes.len() - ol;
+            let content = to_end - used;
+            if val != to_end {
+                v("pkglen-value", format!("width={}", used), format!("body={} decoded={} bytes-to-end={}", n, val, to_end))
+            } else if Some(used) != shortest_incl(content) {
+                v("pkglen-not-shortest", format!("width={} shortest={:?}", used, shortest_incl(content)), format!("body={} content={}", n, content))
+            } else {
+                None
+            }
+        }
+    }
+}
+
+pub fn c07_objects(ctx: &Ctx) {
+    let mut jobs: Vec<(usize, u32)> = Vec::new();
+    let sizes = if ctx.quick() { boundary_sizes(false) } else { (0..=4200).collect() };
+    for k in 0..SIZED_KINDS.len() {
+        for n in &sizes {
+            jobs.push((k, *n));
+        }
+        for n in [65_530u32, 65_534, 65_536, 65_540] {
+            jobs.push((k, n));
+        }
+    }
+    let big: Vec<u32> = ((1 << 20) - 12..(1 << 20) + 6).collect();
+    for k in [0usize, 1, 2, 4, 5, 6, 7, 8, 9, 10, 11, 13, 14] {
+        for n in &big {
+            if ctx.quick() && n % 3 != 0 {
+                continue;
+            }
+            jobs.push((k, *n));
+        }
+    }
+    if !ctx.quick() {
+        // one 2^28-neighbourhood body (256 MiB) for Scope::raw and BufferData
+        for k in [6usize, 13] {
+            jobs.push((k, (1 << 28) - 40));
+        }
+    }
+    let res: Vec<((usize, u32), Violation)> = jobs.par_iter().filter_map(|(k, n)| check_object(*k, *n).map(|v| ((*k, *n), v))).collect();
+    ctx.add_evals(jobs.len() as u64);
+    ctx.add_engine("directed:c07.objects", jobs.len() as u64);
+    ctx.add_subdomain("15 kinds of length-prefixed objects x body sizes through every PkgLength width boundary (real objects, public API)", jobs.len() as u64, false);
+    ctx.add_nontrivial(jobs.iter().map(|j| fingerprint(&("obj", j))));
+    ctx.add_sample(json!({"object": "Method", "body": 4089, "note": "PkgLength measured against the real object's end"}));
+    let mut seen = std::collections::HashSet::new();
+    for ((k, n), v) in res {
+        if seen.insert(v.sig()) {
+            ctx.report("c07.object", json!({"case": {"object": k, "body": n}}), vec![v]);
+        }
+    }
+    let _ = Term::Zero;
+}
+
+pub fn c07_replay(case: &serde_json::Value) -> Vec<Violation> {
+    let k = case["object"].as_u64().unwrap_or(0) as usize;
+    let n = case["body"].as_u64().unwrap_or(0) as u32;
+    check_object(k, n).into_iter().collect()
 }
